@@ -407,17 +407,21 @@ impl SwarmDriver {
                 } else {
                     debug!("For record {pretty_key:?} task {query_id:?}, fetch completed with split record");
                     let mut accumulated_transactions = BTreeSet::new();
+                    // the versions are merged only when every one of them is a transaction record: a
+                    // single transaction reply must not replace the version the other peers agree on
+                    let mut all_are_transactions = true;
                     for (record, _) in result_map.values() {
                         match get_transactions_from_record(record) {
                             Ok(transactions) => {
                                 accumulated_transactions.extend(transactions);
                             }
                             Err(_) => {
+                                all_are_transactions = false;
                                 continue;
                             }
                         }
                     }
-                    if !accumulated_transactions.is_empty() {
+                    if all_are_transactions && !accumulated_transactions.is_empty() {
                         info!("For record {pretty_key:?} task {query_id:?}, found split record for a transaction, accumulated and sending them as a single record");
                         let accumulated_transactions = accumulated_transactions
                             .into_iter()
